@@ -155,6 +155,83 @@ fn main()
         let repr1 = if clifford && i % 5 == 0 { if repr == "vector" { "stabilizer" } else { "vector" } } else { repr };
         emit_run_h(&mut out, &ct, shots, seed, repr, 6, &mut rng, Some((seed1, repr1)));
     }
+    // Wide stabilizer registers: exactly 32 and 64 qubits (a tableau row fills whole 64-bit words) and their neighbours.
+    // X/Y/Z on low qubits (negative signs on low-indexed generators), H (+S, CX) on higher ones, measurements / peeks / resets
+    // in between so that `normalize` displaces rows while signs matter.  A 2^32 vector cannot be built, so these runs are
+    // compared (A) with the tableau model only (lists, any width) - the model is tied to the reference semantics by
+    // C03 + `stab_shot_refinement_generated`; no shot-replay lines (B) for them.
+    let nwide = if thorough() { 240 } else { 48 };
+    for i in 0..nwide
+    {
+        let nq = [32usize, 64, 31, 33, 63, 65, 32, 64][i % 8];
+        let nc = nq.min(64);
+        let mut ops: Vec<String> = vec![];
+        let nlow = 1 + rng.below(3) as usize;
+        let mut low: Vec<usize> = (0..6).collect();
+        rng.shuffle(&mut low);
+        for &q in low[..nlow].iter() { ops.push(format!("gate 1 {} {}", q, *rng.pick(&["X", "X", "Y", "X"]))); }
+        let nhigh = 1 + rng.below(3) as usize;
+        let mut high: Vec<usize> = vec![];
+        for _ in 0..nhigh { let q = 6 + rng.below((nq - 6) as u64) as usize; if !high.contains(&q) { high.push(q); } }
+        if rng.below(3) == 0 { high.push(nq - 1); high.dedup(); }
+        let mut seen = vec![]; high.retain(|q| if seen.contains(q) { false } else { seen.push(*q); true });
+        for &q in high.iter() { ops.push(format!("gate 1 {} H", q)); if rng.below(4) == 0 { ops.push(format!("gate 1 {} S", q)); } }
+        if high.len() >= 2 && rng.below(2) == 0 { ops.push(format!("gate 2 {} {} CX", high[0], high[1])); }
+        if rng.below(3) == 0 { ops.push(format!("gate 2 {} {} CX", high[0], low[0])); }
+        let nmid = 2 + rng.below(4) as usize;
+        for _ in 0..nmid
+        {
+            let q = if rng.below(2) == 0 { *rng.pick(&high) } else { *rng.pick(&low[..nlow.max(2)]) };
+            let c = q % nc;
+            match rng.below(6)
+            {
+                0 | 1 => ops.push(format!("measure {} {} {}", q, c, gen_basis(&mut rng))),
+                2 => ops.push(format!("peek {} {} {}", q, c, gen_basis(&mut rng))),
+                3 => ops.push(format!("reset {}", q)),
+                4 => ops.push(format!("gate 1 {} {}", q, *rng.pick(&["H", "X", "S", "Z"]))),
+                _ => ops.push(format!("measure {} {} Z", q, c)),
+            }
+        }
+        for &q in low[..nlow].iter() { ops.push(format!("measure {} {} Z", q, q % nc)); }
+        for &q in high.iter() { ops.push(format!("measure {} {} {}", q, q % nc, gen_basis(&mut rng))); }
+        let ct = CircuitText { nq, nc, ops };
+        let seed = rng.next();
+        emit_run(&mut out, &ct, [1usize, 2, 5, 8][i % 4], seed, ["stabilizer", "auto"][i % 2], 0, &mut rng);
+    }
+    // High classical bits: a 64-bit register, single-qubit measurements / peeks into bits 30, 31, 32, 33, 62, 63 on both
+    // backends; upper bits are pre-set by earlier measurements of |1> qubits so that a write that clobbers bits it does not
+    // own is visible.  Compared per step with the model (A) and per shot with the reference semantics (B).
+    let nhi = if thorough() { 360 } else { 90 };
+    for i in 0..nhi
+    {
+        let nq = 2 + rng.below(2) as usize;
+        let nc = 64;
+        let hibits = [30usize, 31, 32, 33, 62, 63];
+        let mut ops: Vec<String> = vec![];
+        ops.push("gate 1 0 X".to_string());
+        let npre = 1 + rng.below(3) as usize;
+        for _ in 0..npre { ops.push(format!("measure 0 {} Z", *rng.pick(&[33usize, 40, 47, 62, 63, 32, 31]))); }
+        ops.push("gate 1 1 H".to_string());
+        if nq > 2 && rng.below(2) == 0 { ops.push("gate 2 1 2 CX".to_string()); }
+        let nmid = 2 + rng.below(5) as usize;
+        for _ in 0..nmid
+        {
+            let q = rng.below(nq as u64) as usize;
+            let c = *rng.pick(&hibits);
+            match rng.below(7)
+            {
+                0 | 1 | 2 => ops.push(format!("measure {} {} {}", q, c, gen_basis(&mut rng))),
+                3 => ops.push(format!("peek {} {} {}", q, c, gen_basis(&mut rng))),
+                4 => ops.push(format!("reset {}", q)),
+                5 => ops.push(format!("gate 1 {} {}", q, *rng.pick(&["H", "X", "S"]))),
+                _ => ops.push(format!("measure {} {} Z", q, c)),
+            }
+        }
+        ops.push(format!("measure 0 {} Z", *rng.pick(&hibits)));
+        let ct = CircuitText { nq, nc, ops };
+        let seed = rng.next();
+        emit_run(&mut out, &ct, [1usize, 3, 6, 16][i % 4], seed, ["vector", "stabilizer", "vector", "auto"][i % 4], 4, &mut rng);
+    }
     let n = out.finish();
     eprintln!("c02: {} cases", n);
 }
